@@ -322,6 +322,17 @@ def run(ctx):
     stmts += [("common_parser", "select a from t where c1 between 7 or c2"), ("common_parser", "select c1 not between 3 from t"),
               ("common_parser", "select c1[1].q2[3] from t"), ("common_parser", "select c1::int[2] from t"), ("common_parser", "select c1 #> c2 from t9"),
               ("common_parser", "select sum(x1) over (partition by p1 w2) from t3"), ("common_parser", "create index xi1 on xt2 (xa3) xo5 xo6")]
+    # runs of joins without ON / USING (the grammar nests them, to_join_call flattens the nest back), also in DML
+    stmts += [("common_parser", x) for x in (
+        "select c1 from t1 cross join t2 cross join t3 cross join t4",
+        "select c1 from t1 natural join t2 cross join t3 x3 left join t4 x4 on x3.k3 = x4.k4 and x4.c4 = 's1' join t5 on x4.k5 = t5.k6",
+        "select c1, c2 from t1 join t2 on t1.k1 = t2.k2, t3, t4 x4, t5 where x4.c4 < 102",
+        "select c1 from t1 lateral view f1(c2) x1 as k1 lateral view f2(c3) x2 as k2 lateral view f3(c4, 103) x3 as k3",
+        "select c1 from t1 cross apply f1(t1.k1) x1 cross apply f2(x1.k2, 's2') x2 outer apply f3(x2.k3) x3",
+        "select c1 from t1 join t2 join t3 join t4 on t3.k1 = t4.k2 on t2.k3 = t3.k4 on t1.k5 = t2.k6",
+        "update t1 set c1 = 104 from t2 cross join t3 cross join t4 join t5 on t4.k4 = t5.k5 where t1.k1 = t5.k6",
+        "delete from t1 using t2 natural join t3 natural join t4 natural join t5 x5 where t1.k1 = x5.k5",
+        "with x1 as (select c1 from t1 cross join t2 cross join t3 inner join t4 on t3.k3 = t4.k4) select c2 from x1")]
     # every tail clause after a set operation, alone and in combination (each has its own slot in to_union_call)
     for tail in ("order by a1", "limit 7", "offset 3", "fetch first 5 rows only", "for update of t1", "order by a1 fetch first 5 rows only", "limit 7 for update of t1",
                  "order by a1 limit 7 offset 3", "order by a1 offset 3 rows fetch next 5 rows only"):
